@@ -15,6 +15,7 @@ RULE = ('forward: all candidates of all lines of the C02 generator (Intel syntax
         'restricted to canonical strings (as --32 applied to objdump\'s Intel text of b returns exactly b) that miasmX decodes with the reference length: '
         'b must be among asm(str(dis(b))). A case = (direction, line/bytes, candidate); non-trivial = the round trip was evaluated (candidate decoded / '
         'string canonical and decoded).')
+RULE += ' Round 8: one candidate in four is also decoded from a stream positioned on it inside a larger buffer with nothing after it.'
 ASSUMPTIONS = ['GNU as/objdump 2.40 only *select* the canonical byte strings of the backward direction; the comparison itself is miasmX against miasmX']
 
 
